@@ -1,0 +1,27 @@
+//go:build verif
+
+package caldav
+
+import "time"
+
+// Verification hooks (build tag "verif"): thin wrappers that expose unexported
+// codecs to the external verification harness. Add-only; not part of the
+// library when the tag is off.
+
+func VerifDateMarshal(t time.Time) (string, error) {
+	d := dateWithUTCTime(t)
+	b, err := d.MarshalText()
+	return string(b), err
+}
+
+func VerifDateUnmarshal(s string) (time.Time, error) {
+	var d dateWithUTCTime
+	err := d.UnmarshalText([]byte(s))
+	return time.Time(d), err
+}
+
+func VerifNegateUnmarshal(s string) (bool, error) {
+	var nc negateCondition
+	err := nc.UnmarshalText([]byte(s))
+	return bool(nc), err
+}
